@@ -7,6 +7,8 @@
 //!                    4 / 5 = 2 / 3 installed with SA_RESETHAND|SA_NODEFER|SA_ONSTACK and SIGWINCH in the mask
 //!                    item: 1 sig tag register | 2 sig tag register_sigaction | 3 sig id unregister
 //!                          4 sig unregister_signal | 5 sig raise | 6 sig report disposition
+//!                          7 sig signal_hook::low_level::emulate_default_handler(sig) (ignore / stop kinds only; the
+//!                            parent continues a child that stopped)
 //!                  stdout: first the `libaddr` line, then per history:  H <case-id> <ints>  with per item
 //!                      1 id | 2 | 3 | 4 b | 5 n tags.. | 6 k f a addr | 8 (pair (sig,id) was never handed out)
 //!                    then  -2 dup    (number of returned SigIds equal (==) to an earlier one)
@@ -178,6 +180,10 @@ fn run_history(ints: &[i64]) -> String {
                 let (k, f, a) = unsafe { disposition(sig) };
                 res.push(format!("6 {} {} -1 {}", k, f, a));
             }
+            7 => {
+                let r = signal_hook::low_level::emulate_default_handler(sig);
+                res.push(format!("7 {}", r.is_ok() as i32));
+            }
             _ => res.push("-98".into()),
         }
     }
@@ -199,7 +205,7 @@ fn cmd_run() -> i32 {
         let ints: Vec<i64> = it.map(|x| x.parse().unwrap()).collect();
         std::io::stdout().flush().unwrap();
         let case2 = case.clone();
-        let o = run_child(
+        let o = sh_harness::forked::run_child_opts(
             move || {
                 std::panic::set_hook(Box::new(|_| {}));
                 let s = run_history(&ints);
@@ -207,6 +213,7 @@ fn cmd_run() -> i32 {
                 0
             },
             Duration::from_secs(20),
+            true,
         );
         if o != Outcome::Exited(0) {
             println!("H {} DIED {}", case, o.text());
